@@ -805,6 +805,12 @@ module Z =
     | Gt -> m
     | _ -> n0
 
+  (** val abs : z -> z **)
+
+  let abs = function
+  | Zneg p -> Zpos p
+  | x -> x
+
   (** val to_nat : z -> nat **)
 
   let to_nat = function
@@ -933,6 +939,12 @@ let rec append s1 s2 =
   match s1 with
   | [] -> s2
   | c::s1' -> c::(append s1' s2)
+
+(** val length0 : char list -> nat **)
+
+let rec length0 = function
+| [] -> O
+| _::s' -> S (length0 s')
 
 type exn =
 | FlamaException
@@ -1434,6 +1446,13 @@ let d_str = function
 let d_z = function
 | SAtom x -> string_to_z x
 | _ -> None
+
+(** val d_nat : sexp -> nat option **)
+
+let d_nat s =
+  match d_z s with
+  | Some z0 -> if Z.leb Z0 z0 then Some (Z.to_nat z0) else None
+  | None -> None
 
 (** val d_bool : sexp -> bool option **)
 
@@ -5116,7 +5135,7 @@ let rec value_cst = function
 (** val attrs_cst : feature -> uattr list option result **)
 
 let attrs_cst f =
-  let abs =
+  let abs0 =
     if aval_truthy (info f).f_abstract
     then (UAValue
            (('a'::('b'::('s'::('t'::('r'::('a'::('c'::('t'::[])))))))),
@@ -5130,7 +5149,7 @@ let attrs_cst f =
              (match value_cst x with
               | Ok v' -> Ok (UAValue ((uvl_safename a.a_name), (Some v')))
               | Err e -> Err e)) (info f).f_attrs with
-   | Ok l -> Ok (match app abs l with
+   | Ok l -> Ok (match app abs0 l with
                  | [] -> None
                  | u :: l0 -> Some (u :: l0))
    | Err e -> Err e)
@@ -8460,10 +8479,15 @@ let leaf_depths m =
   map (fun fa -> zlen (snd fa))
     (filter (fun fa -> feat_is_leaf (fst fa)) (ancestors_table m))
 
+(** val is_group_feature : feature -> bool **)
+
+let is_group_feature f =
+  (||) (feat_is_group f) (feat_is_cardinality_group f)
+
 (** val group_names : fm -> char list list **)
 
 let group_names m =
-  map name (filter feat_is_group (feats m))
+  map name (filter is_group_feature (feats m))
 
 (** val solitary_names : fm -> char list list **)
 
@@ -9136,6 +9160,342 @@ let report m flt =
     | None -> metric_methods
   in
   mapM (metric m) methods
+
+type draw =
+| DChoice of nat
+| DUniform of z * z
+| DRandint of z
+
+type dec = { d_m : z; d_e : z }
+
+(** val digits_to_z : char list -> z -> z option **)
+
+let rec digits_to_z s acc =
+  match s with
+  | [] -> Some acc
+  | c::rest ->
+    if is_digit c
+    then digits_to_z rest
+           (Z.sub
+             (Z.add (Z.mul acc (Zpos (XO (XI (XO XH))))) (Z.of_N (ascii_n c)))
+             (Zpos (XO (XO (XO (XO (XI XH)))))))
+    else None
+
+(** val split_at :
+    char -> char list -> char list -> char list * char list option **)
+
+let rec split_at c s acc =
+  match s with
+  | [] -> ((str_rev acc), None)
+  | d::rest ->
+    if (=) c d then ((str_rev acc), (Some rest)) else split_at c rest (d::acc)
+
+(** val str_len : char list -> z **)
+
+let str_len s =
+  Z.of_nat (length0 s)
+
+(** val signed : char list -> bool * char list **)
+
+let signed s = match s with
+| [] -> (false, s)
+| a::rest ->
+  (* If this appears, you're using Ascii internals. Please don't *)
+ (fun f c ->
+  let n = Char.code c in
+  let h i = (n land (1 lsl i)) <> 0 in
+  f (h 0) (h 1) (h 2) (h 3) (h 4) (h 5) (h 6) (h 7))
+    (fun b b0 b1 b2 b3 b4 b5 b6 ->
+    if b
+    then if b0
+         then if b1
+              then (false, s)
+              else if b2
+                   then if b3
+                        then (false, s)
+                        else if b4
+                             then if b5
+                                  then (false, s)
+                                  else if b6
+                                       then (false, s)
+                                       else (false, rest)
+                             else (false, s)
+                   else (false, s)
+         else if b1
+              then if b2
+                   then if b3
+                        then (false, s)
+                        else if b4
+                             then if b5
+                                  then (false, s)
+                                  else if b6 then (false, s) else (true, rest)
+                             else (false, s)
+                   else (false, s)
+              else (false, s)
+    else (false, s))
+    a
+
+(** val dec_of_repr : char list -> dec option **)
+
+let dec_of_repr r =
+  let (mant, expo) = split_at 'e' r [] in
+  let (neg, mant') = signed mant in
+  let (ip, fp) = split_at '.' mant' [] in
+  let fp' = match fp with
+            | Some f -> f
+            | None -> [] in
+  (match digits_to_z (append ip fp') Z0 with
+   | Some m ->
+     let e10 =
+       match expo with
+       | Some ex ->
+         let (eneg, ex') = signed ex in
+         (match digits_to_z ex' Z0 with
+          | Some z0 -> Some (if eneg then Z.opp z0 else z0)
+          | None -> None)
+       | None -> Some Z0
+     in
+     (match e10 with
+      | Some e ->
+        Some { d_m = (if neg then Z.opp m else m); d_e =
+          (Z.sub e (str_len fp')) }
+      | None -> None)
+   | None -> None)
+
+(** val dec_of_bound : aval -> dec option **)
+
+let dec_of_bound = function
+| VInt z0 -> Some { d_m = z0; d_e = Z0 }
+| VFloat r -> dec_of_repr r
+| _ -> None
+
+(** val dec_leb : dec -> dec -> bool **)
+
+let dec_leb a b =
+  let e = Z.min a.d_e b.d_e in
+  Z.leb (Z.mul a.d_m (Z.pow (Zpos (XO (XI (XO XH)))) (Z.sub a.d_e e)))
+    (Z.mul b.d_m (Z.pow (Zpos (XO (XI (XO XH)))) (Z.sub b.d_e e)))
+
+(** val dot_digits : aval -> z **)
+
+let dot_digits = function
+| VFloat r ->
+  let rec go s n0 =
+    match s with
+    | [] -> Zneg XH
+    | c::rest -> if (=) c '.' then n0 else go rest (Z.add n0 (Zpos XH))
+  in go (str_rev r) Z0
+| _ -> Zneg XH
+
+(** val round_dec : z -> z -> z -> dec **)
+
+let round_dec num den digits =
+  let neg = Z.ltb num Z0 in
+  let n0 = Z.abs num in
+  let q =
+    if Z.leb Z0 digits
+    then div_rne (Z.mul n0 (Z.pow (Zpos (XO (XI (XO XH)))) digits)) den
+    else div_rne n0
+           (Z.mul den (Z.pow (Zpos (XO (XI (XO XH)))) (Z.opp digits)))
+  in
+  { d_m = (if neg then Z.opp q else q); d_e = (Z.opp digits) }
+
+(** val is_float : aval -> bool **)
+
+let is_float = function
+| VFloat _ -> true
+| _ -> false
+
+(** val is_int : aval -> bool **)
+
+let is_int = function
+| VInt _ -> true
+| _ -> false
+
+type gval =
+| GElem of aval
+| GInt of z
+| GDec of dec
+| GBound of aval
+| GNone
+
+(** val value_from_ranges :
+    range list -> draw list -> (gval * draw list) result **)
+
+let value_from_ranges ranges = function
+| [] -> Err OtherExn
+| d :: rest ->
+  (match d with
+   | DChoice i ->
+     (match nth_error ranges i with
+      | Some rg ->
+        let lo = rg.rg_min in
+        let hi = rg.rg_max in
+        if (||) (is_float lo) (is_float hi)
+        then (match rest with
+              | [] -> Err OtherExn
+              | d0 :: rest' ->
+                (match d0 with
+                 | DUniform (num, den) ->
+                   let digits = Z.max (dot_digits lo) (dot_digits hi) in
+                   let v = round_dec num den digits in
+                   (match dec_of_bound lo with
+                    | Some dlo ->
+                      (match dec_of_bound hi with
+                       | Some dhi ->
+                         let v1 = if dec_leb dlo v then GDec v else GBound lo
+                         in
+                         let v1d = if dec_leb dlo v then v else dlo in
+                         Ok ((if dec_leb v1d dhi then v1 else GBound hi),
+                         rest')
+                       | None -> Err TypeError)
+                    | None -> Err TypeError)
+                 | _ -> Err OtherExn))
+        else if (&&) (is_int lo) (is_int hi)
+             then (match rest with
+                   | [] -> Err OtherExn
+                   | d0 :: rest' ->
+                     (match d0 with
+                      | DRandint z0 -> Ok ((GInt z0), rest')
+                      | _ -> Err OtherExn))
+             else Err FlamaException
+      | None -> Err IndexError)
+   | _ -> Err OtherExn)
+
+(** val value_from_domain :
+    domain -> draw list -> (gval * draw list) result **)
+
+let value_from_domain d draws =
+  match d.dom_elems with
+  | [] ->
+    (match d.dom_ranges with
+     | [] -> Ok (GNone, draws)
+     | _ :: _ -> value_from_ranges d.dom_ranges draws)
+  | _ :: _ ->
+    (match d.dom_ranges with
+     | [] ->
+       (match draws with
+        | [] -> Err OtherExn
+        | d0 :: rest ->
+          (match d0 with
+           | DChoice i ->
+             (match nth_error d.dom_elems i with
+              | Some el -> Ok ((GElem el), rest)
+              | None -> Err IndexError)
+           | _ -> Err OtherExn))
+     | _ :: _ ->
+       (match draws with
+        | [] -> Err OtherExn
+        | d0 :: rest ->
+          (match d0 with
+           | DChoice i ->
+             (match nth_error d.dom_elems i with
+              | Some el ->
+                (match value_from_ranges d.dom_ranges rest with
+                 | Ok a ->
+                   let (rv, rest') = a in
+                   (match rest' with
+                    | [] -> Err OtherExn
+                    | d1 :: rest'' ->
+                      (match d1 with
+                       | DChoice j ->
+                         if Nat.eqb j O
+                         then Ok ((GElem el), rest'')
+                         else if Nat.eqb j (S O)
+                              then Ok (rv, rest'')
+                              else Err IndexError
+                       | _ -> Err OtherExn))
+                 | Err e -> Err e)
+              | None -> Err IndexError)
+           | _ -> Err OtherExn)))
+
+(** val gval_aval : gval -> aval **)
+
+let gval_aval = function
+| GElem v -> v
+| GInt z0 -> VInt z0
+| GDec d ->
+  VFloat
+    (append ('d'::('e'::('c'::(' '::[]))))
+      (append (z_to_string d.d_m) (append (' '::[]) (z_to_string d.d_e))))
+| GBound v -> v
+| GNone -> VNone
+
+(** val has_attr : char list -> feature -> bool **)
+
+let has_attr nm f =
+  existsb (fun a -> eqb0 nm a.a_name) (info f).f_attrs
+
+(** val targeted : bool -> char list -> feature -> bool **)
+
+let targeted only_leaf nm f =
+  (&&) ((||) (negb only_leaf) (feat_is_leaf f)) (negb (has_attr nm f))
+
+(** val decide :
+    feature list -> bool -> char list -> domain -> draw list -> (aval option
+    list * draw list) result **)
+
+let rec decide fs only_leaf nm d draws =
+  match fs with
+  | [] -> Ok ([], draws)
+  | f :: rest ->
+    if targeted only_leaf nm f
+    then (match value_from_domain d draws with
+          | Ok a ->
+            let (g, draws') = a in
+            (match decide rest only_leaf nm d draws' with
+             | Ok a0 ->
+               let (vs, dr) = a0 in Ok (((Some (gval_aval g)) :: vs), dr)
+             | Err e -> Err e)
+          | Err e -> Err e)
+    else (match decide rest only_leaf nm d draws with
+          | Ok a -> let (vs, dr) = a in Ok ((None :: vs), dr)
+          | Err e -> Err e)
+
+(** val lookup_value :
+    char list -> feature list -> aval option list -> aval option **)
+
+let rec lookup_value n0 fs vs =
+  match fs with
+  | [] -> None
+  | f :: fs' ->
+    (match vs with
+     | [] -> None
+     | v :: vs' -> if eqb0 (name f) n0 then v else lookup_value n0 fs' vs')
+
+(** val apply_values :
+    char list -> domain -> feature list -> aval option list -> feature ->
+    feature **)
+
+let rec apply_values nm d fs vs = function
+| Feature (i, rs) ->
+  let i' =
+    match lookup_value i.f_name fs vs with
+    | Some v ->
+      { f_name = i.f_name; f_abstract = i.f_abstract; f_type = i.f_type;
+        f_cmin = i.f_cmin; f_cmax = i.f_cmax; f_attrs =
+        (app i.f_attrs ({ a_name = nm; a_dom = (Some d); a_default = v;
+          a_null = VNone } :: [])) }
+    | None -> i
+  in
+  Feature (i',
+  (map (fun r ->
+    let Relation (a, b, cs) = r in
+    Relation (a, b, (map (apply_values nm d fs vs) cs))) rs))
+
+(** val gen_random_attribute :
+    char list -> domain option -> bool -> draw list -> fm -> fm result **)
+
+let gen_random_attribute nm dom only_leaf draws m =
+  match dom with
+  | Some d ->
+    let fs = get_features m in
+    (match decide fs only_leaf nm d draws with
+     | Ok a ->
+       let (vs, _) = a in
+       Ok { root = (apply_values nm d fs vs m.root); ctcs = m.ctcs }
+     | Err e -> Err e)
+  | None -> Err FlamaException
 
 (** val e_aval : aval -> sexp **)
 
@@ -11059,6 +11419,38 @@ let op_export_sat m =
                existsb (fun s -> eqb0 (w_safename s) n0) sel) d) subsets))
          (clafer_write m)) :: [])) :: [])))
 
+(** val d_draw : sexp -> draw option **)
+
+let d_draw = function
+| SList l ->
+  (match l with
+   | [] -> None
+   | s0 :: l0 ->
+     (match s0 with
+      | SAtom k ->
+        (match l0 with
+         | [] -> None
+         | a :: l1 ->
+           (match l1 with
+            | [] ->
+              if eqb0 k ('c'::[])
+              then option_map (fun x -> DChoice x) (d_nat a)
+              else if eqb0 k ('r'::[])
+                   then option_map (fun x -> DRandint x) (d_z a)
+                   else None
+            | b :: l2 ->
+              (match l2 with
+               | [] ->
+                 (match d_z a with
+                  | Some x ->
+                    (match d_z b with
+                     | Some y -> Some (DUniform (x, y))
+                     | None -> None)
+                  | None -> None)
+               | _ :: _ -> None)))
+      | _ -> None))
+| _ -> None
+
 (** val bad : char list -> sexp **)
 
 let bad msg =
@@ -11602,6 +11994,97 @@ let dispatch = function
                                                                     bad
                                                                     ('f'::('m'::[])))
                                                                     | _ :: _ ->
+                                                                    bad
+                                                                    ('a'::('r'::('i'::('t'::('y'::[])))))))
+                                                                    else 
+                                                                    if 
+                                                                    eqb0 op
+                                                                    ('g'::('e'::('n'::('r'::('a'::('n'::('d'::('o'::('m'::[])))))))))
+                                                                    then 
+                                                                    (match args with
+                                                                    | [] ->
+                                                                    bad
+                                                                    ('a'::('r'::('i'::('t'::('y'::[])))))
+                                                                    | s0 :: l0 ->
+                                                                    (match s0 with
+                                                                    | SStr nm ->
+                                                                    (match l0 with
+                                                                    | [] ->
+                                                                    bad
+                                                                    ('a'::('r'::('i'::('t'::('y'::[])))))
+                                                                    | dom :: l1 ->
+                                                                    (match l1 with
+                                                                    | [] ->
+                                                                    bad
+                                                                    ('a'::('r'::('i'::('t'::('y'::[])))))
+                                                                    | ol :: l2 ->
+                                                                    (match l2 with
+                                                                    | [] ->
+                                                                    bad
+                                                                    ('a'::('r'::('i'::('t'::('y'::[])))))
+                                                                    | s1 :: l3 ->
+                                                                    (match s1 with
+                                                                    | SList draws ->
+                                                                    (match l3 with
+                                                                    | [] ->
+                                                                    bad
+                                                                    ('a'::('r'::('i'::('t'::('y'::[])))))
+                                                                    | m :: l4 ->
+                                                                    (match l4 with
+                                                                    | [] ->
+                                                                    let dom' =
+                                                                    if 
+                                                                    is_nil dom
+                                                                    then 
+                                                                    Some None
+                                                                    else 
+                                                                    (match 
+                                                                    d_domain
+                                                                    dom with
+                                                                    | Some x ->
+                                                                    Some
+                                                                    (Some x)
+                                                                    | None ->
+                                                                    None)
+                                                                    in
+                                                                    (
+                                                                    match dom' with
+                                                                    | Some dm ->
+                                                                    (match 
+                                                                    d_bool ol with
+                                                                    | Some b ->
+                                                                    (match 
+                                                                    omap
+                                                                    d_draw
+                                                                    draws with
+                                                                    | Some dr ->
+                                                                    (match 
+                                                                    d_fm m with
+                                                                    | Some m' ->
+                                                                    e_result
+                                                                    e_fm
+                                                                    (gen_random_attribute
+                                                                    nm dm b
+                                                                    dr m')
+                                                                    | None ->
+                                                                    bad
+                                                                    ('g'::('e'::('n'::('r'::('a'::('n'::('d'::('o'::('m'::(' '::('a'::('r'::('g'::('s'::[])))))))))))))))
+                                                                    | None ->
+                                                                    bad
+                                                                    ('g'::('e'::('n'::('r'::('a'::('n'::('d'::('o'::('m'::(' '::('a'::('r'::('g'::('s'::[])))))))))))))))
+                                                                    | None ->
+                                                                    bad
+                                                                    ('g'::('e'::('n'::('r'::('a'::('n'::('d'::('o'::('m'::(' '::('a'::('r'::('g'::('s'::[])))))))))))))))
+                                                                    | None ->
+                                                                    bad
+                                                                    ('g'::('e'::('n'::('r'::('a'::('n'::('d'::('o'::('m'::(' '::('a'::('r'::('g'::('s'::[])))))))))))))))
+                                                                    | _ :: _ ->
+                                                                    bad
+                                                                    ('a'::('r'::('i'::('t'::('y'::[])))))))
+                                                                    | _ ->
+                                                                    bad
+                                                                    ('a'::('r'::('i'::('t'::('y'::[])))))))))
+                                                                    | _ ->
                                                                     bad
                                                                     ('a'::('r'::('i'::('t'::('y'::[])))))))
                                                                     else 
